@@ -743,8 +743,15 @@ pub fn reject_probes(shapes: &[Shape], picks: &[usize]) -> Vec<(String, String, 
                     let v = pick % vs.len();
                     let decl = sh.decl("T", None, "");
                     let needle = format!("    V{v}");
-                    let bad = decl.replacen(&needle, &format!("    #[collect(require_static)]\n    V{v}"), 1);
-                    out.push(("require_static-on-enum-variant".into(), wrap(bad), twin));
+                    // once, twice, next to another attribute, or merged with another option
+                    let (attrs, class) = match (pick / 7) % 5 {
+                        0 | 1 => ("#[collect(require_static)]", "require_static-on-enum-variant"),
+                        2 => ("#[collect(require_static)]\n    #[collect(require_static)]", "require_static-twice-on-enum-variant"),
+                        3 => ("#[collect(require_static)]\n    #[allow(dead_code)]\n    #[collect(require_static)]", "require_static-twice-on-enum-variant"),
+                        _ => ("#[allow(dead_code)]\n    #[collect(require_static)]", "require_static-on-enum-variant"),
+                    };
+                    let bad = decl.replacen(&needle, &format!("    {attrs}\n    V{v}"), 1);
+                    out.push((class.into(), wrap(bad), twin));
                 }
             }
             8 => {
@@ -773,7 +780,8 @@ pub fn reject_probes(shapes: &[Shape], picks: &[usize]) -> Vec<(String, String, 
         }
     }
     // always present: one fixed probe per refusal named in the property, independent of sampling
-    let fixed: [(&str, &str, &str); 8] = [
+    let fixed: [(&str, &str, &str); 9] = [
+        ("fixed-require_static-twice-on-enum-variant", "#[derive(Collect)]\n#[collect(no_drop)]\npub enum T<'gc> { A(Gc<'gc, u32>), #[collect(require_static)] #[collect(require_static)] B(u8) }", "#[derive(Collect)]\n#[collect(no_drop)]\npub enum T<'gc> { A(Gc<'gc, u32>), B(#[collect(require_static)] u8) }"),
         ("fixed-missing-mode", "#[derive(Collect)]\npub struct T<'gc> { g: Gc<'gc, u32> }", "#[derive(Collect)]\n#[collect(no_drop)]\npub struct T<'gc> { g: Gc<'gc, u32> }"),
         ("fixed-two-modes", "#[derive(Collect)]\n#[collect(no_drop, unsafe_drop)]\npub struct T<'gc> { g: Gc<'gc, u32> }", "#[derive(Collect)]\n#[collect(unsafe_drop)]\npub struct T<'gc> { g: Gc<'gc, u32> }"),
         ("fixed-no_drop-with-Drop-impl", "#[derive(Collect)]\n#[collect(no_drop)]\npub struct T<'gc> { g: Gc<'gc, u32> }\nimpl<'gc> Drop for T<'gc> { fn drop(&mut self) {} }", "#[derive(Collect)]\n#[collect(unsafe_drop)]\npub struct T<'gc> { g: Gc<'gc, u32> }\nimpl<'gc> Drop for T<'gc> { fn drop(&mut self) {} }"),
